@@ -165,9 +165,16 @@ def _read_out(path, res, runname, seed, prop_filter, remap=None):
                     continue
                 t = o.get("t")
                 if t == "viol":
-                    if remap and o.get("prop") in remap:
-                        o["key"] = remap[o["prop"]] + ":sync:" + o["key"]
-                        o["prop"] = remap[o["prop"]]
+                    if remap:
+                        # by property, or by key prefix (entries containing ':')
+                        tgt = remap.get(o.get("prop"))
+                        if tgt is None:
+                            for k2, t2 in remap.items():
+                                if ":" in k2 and str(o.get("key", "")).startswith(k2):
+                                    tgt = t2
+                        if tgt:
+                            o["key"] = tgt + ":sync:" + o["key"]
+                            o["prop"] = tgt
                     o["run"] = runname
                     o["seed"] = seed
                     with res.lock:
